@@ -88,13 +88,24 @@ DT_CODE = {"float32": 0, "float64": 1, "complex64": 2, "complex128": 3}
 # (A1) TVNorm cache
 
 
-def _tv_make(cls_name, circ, pre):
+TV_AXES = [None, (0,), (1,)]  # configuration values of `axes` used by the attribute-change histories (code = index)
+
+
+def _cfg_code(dtype_code, circ, axes):
+    """the model's descriptor packs the configuration the operators are built from into one number:
+    dtype + 10*circular + 100*axes-code (cache key of the code: shape, dtype, circular, axes)"""
+    ax = None if axes is None else tuple(axes)
+    return int(dtype_code) + 10 * int(bool(circ)) + 100 * TV_AXES.index(ax)
+
+
+def _tv_make(cls_name, circ, pre, axes=None):
     from scico import functional as F
 
     cls = getattr(F, cls_name)
+    ax = None if axes is None else tuple(axes)
     if pre is None:
-        return cls(circular=circ)
-    return cls(circular=circ, input_shape=tuple(pre[0]), input_dtype=np.dtype(pre[1]))
+        return cls(circular=circ, axes=ax)
+    return cls(circular=circ, axes=ax, input_shape=tuple(pre[0]), input_dtype=np.dtype(pre[1]))
 
 
 def _tv_input(shape, dt, salt):
@@ -103,21 +114,29 @@ def _tv_input(shape, dt, salt):
     return cc._arr(np.random.default_rng(1000 + salt), tuple(shape), np.dtype(dt))
 
 
-def _opkey(op):
-    return {"shape": [int(s) for s in op.input_shape], "dtype": DT_CODE[np.dtype(op.input_dtype).name]}
+def _opkey(op, built_cfg):
+    return {"shape": [int(s) for s in op.input_shape], "dtype": _cfg_code(DT_CODE[np.dtype(op.input_dtype).name], built_cfg[0], built_cfg[1])}
 
 
 def _tv_run_impl(cls_name, circ, pre, ops):
-    """returns per step: rebuilt flag, descriptor of cached ops, value, and the value of a fresh object"""
+    """ops: {"k": "call"|"prox", shape, dt} or {"k": "set", "circ": bool, "axes": list|None} (assign tv.circular / tv.axes).
+    returns per call step: rebuilt flag, descriptor of cached ops, value, and the value of a fresh object built with the CURRENT
+    configuration, and the configuration at that step"""
     import cache_catalog as cc
 
     tv = _tv_make(cls_name, circ, pre)
+    cfg0 = (circ, None)
     out = []
     for k, o in enumerate(ops):
+        if o["k"] == "set":
+            tv.circular = o["circ"]
+            tv.axes = None if o["axes"] is None else tuple(o["axes"])
+            continue
         x = _tv_input(o["shape"], o["dt"], k)
         before = (tv.G, tv.WP)
         cfg_before = cc.snapshot((tv.circular, tv.axes, type(tv.norm).__name__))
-        rec = {}
+        cur = (tv.circular, tv.axes)
+        rec = {"cfg": [bool(cur[0]), None if cur[1] is None else list(cur[1])]}
         try:
             val = tv(x) if o["k"] == "call" else tv.prox(x, 0.5)
             rec["val"] = cc.canon(val)
@@ -125,9 +144,11 @@ def _tv_run_impl(cls_name, circ, pre, ops):
             rec["err"] = common.err_kind(e) + ":" + type(e).__name__
         rec["cfg_changed"] = cc.snapshot((tv.circular, tv.axes, type(tv.norm).__name__)) != cfg_before
         rec["rebuilt"] = (tv.G is not before[0]) if o["k"] == "call" else (tv.WP is not before[1])
-        rec["G"] = None if tv.G is None else _opkey(tv.G)
-        rec["P"] = None if tv.WP is None else _opkey(tv.WP)
-        fresh = _tv_make(cls_name, circ, None)
+        # the configuration the cached operators were built from (`_G_key` / `_WP_key`; trees without these attributes never rebuild
+        # on a configuration change: the operators then still carry the constructor's configuration)
+        rec["G"] = None if tv.G is None else _opkey(tv.G, getattr(tv, "_G_key", cfg0))
+        rec["P"] = None if tv.WP is None else _opkey(tv.WP, getattr(tv, "_WP_key", cfg0))
+        fresh = _tv_make(cls_name, cur[0], None, cur[1])
         try:
             fv = fresh(x) if o["k"] == "call" else fresh.prox(x, 0.5)
             rec["fresh"] = cc.canon(fv)
@@ -141,15 +162,16 @@ def _oracle_tv(case):
     import cache_catalog as cc
 
     res = _tv_run_impl(case["cls"], case["circ"], case["pre"], case["ops"])
+    calls = [o for o in case["ops"] if o["k"] != "set"]
     for k, r in enumerate(res):
-        rt = 2e-4 if case["ops"][k]["dt"] in ("float32", "complex64") else 1e-9
+        rt = 2e-4 if calls[k]["dt"] in ("float32", "complex64") else 1e-9
         if r.get("cfg_changed"):
             return {"case": case, "step": k, "what": "the call changed the configuration attributes (circular/axes/norm) of the TV norm object"}
         if ("err" in r) != ("fresh_err" in r):
             return {"case": case, "step": k, "used_object": r.get("err", "ok"), "fresh_object": r.get("fresh_err", "ok"),
                     "what": "call after this history behaves differently from a fresh object"}
         if "val" in r and not cc.same(r["val"], r["fresh"], rt):
-            return {"case": case, "step": k, "what": "value after this history differs from a fresh object",
+            return {"case": case, "step": k, "configuration_now": r["cfg"], "what": "value after this history differs from a fresh object built with the current configuration",
                     "used": [v.tolist() for v in r["val"]], "fresh": [v.tolist() for v in r["fresh"]]}
     return None
 
@@ -164,6 +186,16 @@ def _corr_tv(ctx, model):
         ops = [{"k": "prox", "shape": [4], "dt": "float64"}, {"k": "prox", "shape": [4, 6], "dt": "float64"}, {"k": "call", "shape": [4, 6], "dt": "float64"},
                {"k": "prox", "shape": [4], "dt": "float64"}, {"k": "prox", "shape": [6, 4], "dt": "float32"}]
         _tv_case(ctx, model, {"kind": "tv", "cls": cls_name, "circ": circ, "pre": None, "ops": ops})
+    # the configuration attributes assigned between calls (cache key of the code: shape, dtype, circular, axes): a call after the
+    # assignment must use operators built for the NEW configuration = what a fresh object built with it computes
+    for cls_name in ("AnisotropicTVNorm", "IsotropicTVNorm") if ctx.thorough else (["AnisotropicTVNorm", "IsotropicTVNorm"][int(ctx.rng.integers(0, 2))],):
+        for circ0 in (True, False):
+            c46 = {"shape": [4, 6], "dt": "float64"}
+            ops = [{"k": "prox", **c46}, {"k": "call", **c46}, {"k": "set", "circ": not circ0, "axes": None}, {"k": "prox", **c46}, {"k": "call", **c46},
+                   {"k": "set", "circ": not circ0, "axes": [1]}, {"k": "call", **c46}, {"k": "prox", **c46}, {"k": "prox", "shape": [6, 4], "dt": "float32"},
+                   {"k": "set", "circ": circ0, "axes": [0]}, {"k": "prox", "shape": [6, 4], "dt": "float32"}, {"k": "call", **c46},
+                   {"k": "set", "circ": circ0, "axes": None}, {"k": "call", **c46}, {"k": "prox", **c46}]
+            _tv_case(ctx, model, {"kind": "tv", "cls": cls_name, "circ": circ0, "pre": None if circ0 else [[4, 6], "float64"], "ops": ops})
     nh = ctx.n(6, 30)
     for h in range(nh):
         cls_name = ["AnisotropicTVNorm", "IsotropicTVNorm"][int(ctx.rng.integers(0, 2))]
@@ -188,8 +220,16 @@ def _tv_case(ctx, model, case):
 
     ops, pre = case["ops"], case["pre"]
     impl = _tv_run_impl(case["cls"], case["circ"], pre, ops)
-    m = model.call("tv", pre=None if pre is None else {"shape": pre[0], "dtype": DT_CODE[pre[1]]},
-                   ops=[{"k": o["k"], "shape": o["shape"], "dtype": DT_CODE[o["dt"]]} for o in ops])
+    # the model's descriptor of a call = (shape, dtype + configuration in force at that call): key (shape, dtype, circular, axes)
+    cur, mops = (case["circ"], None), []
+    for o in ops:
+        if o["k"] == "set":
+            cur = (o["circ"], o["axes"])
+            ctx.count("tv:set-config")
+        else:
+            mops.append({"k": o["k"], "shape": o["shape"], "dtype": _cfg_code(DT_CODE[o["dt"]], cur[0], cur[1])})
+    m = model.call("tv", pre=None if pre is None else {"shape": pre[0], "dtype": _cfg_code(DT_CODE[pre[1]], case["circ"], None)}, ops=mops)
+    ops = [o for o in ops if o["k"] != "set"]
     keys = [(tuple(o["shape"]), o["dt"], o["k"]) for o in ops]
     nt = ("tv", json.dumps(case, sort_keys=True)) if len(set(keys)) < len(keys) or len(set(k[:2] for k in keys)) > 1 else None
     ctx.case(case, nt, sample_every=37)
